@@ -1,6 +1,6 @@
 #!/bin/sh
-# usage: confirm_seed.sh <Cxx> <m1|m2> : confirms a sub-agent's mutation in a scratch worktree and stores it under /verif/seeded
-p=$1; m=$2
+# usage: confirm_seed.sh <Cxx> <m1|m2> [<stored-as, default the same>] : confirms a sub-agent's mutation in a scratch worktree and stores it under /verif/seeded
+p=$1; m=$2; as=${3:-$2}
 export PATH=/opt/veriftools/go1.27.0/bin:$PATH GOTOOLCHAIN=local GOFLAGS=-mod=mod GOPROXY=off GOSUMDB=off
 src=/tmp/wt-$p/_seed/$m
 wt=/tmp/confirm-$p-$m
@@ -9,16 +9,16 @@ cd /repo && git worktree add -q --detach $wt HEAD || exit 9
 cd $wt
 cp $src/demo_test.go $dir/zz_seed_demo_test.go
 run=$(grep -o 'func Test[A-Za-z0-9_]*' $dir/zz_seed_demo_test.go | sed 's/func //' | paste -sd'|')
-timeout 900 go test -vet=off -count=1 -short -run "^($run)\$" ./$dir/ > /tmp/confirm-clean.out 2>&1; clean=$?
+timeout 900 go test -vet=off -count=1 -short -run "^($run)\$" ./$dir/ > /tmp/confirm-$p-$m-clean.out 2>&1; clean=$?
 git apply $src/patch.diff || { echo "patch failed"; cd /repo; git worktree remove --force $wt; exit 9; }
-timeout 600 go build ./... > /tmp/confirm-build.out 2>&1; build=$?
-timeout 900 go test -vet=off -count=1 -short -run "^($run)\$" ./$dir/ > /tmp/confirm-mut.out 2>&1; mut=$?
+timeout 600 go build ./... > /tmp/confirm-$p-$m-build.out 2>&1; build=$?
+timeout 900 go test -vet=off -count=1 -short -run "^($run)\$" ./$dir/ > /tmp/confirm-$p-$m-mut.out 2>&1; mut=$?
 rm $dir/zz_seed_demo_test.go
 pkgs=$(git diff --name-only | xargs -n1 dirname | sort -u | sed 's|^|./|' | tr '\n' ' ')
-timeout 1500 go test -vet=off -count=1 $pkgs > /tmp/confirm-existing.out 2>&1; existing=$?
+timeout 1500 go test -vet=off -count=1 $pkgs > /tmp/confirm-$p-$m-existing.out 2>&1; existing=$?
 echo "$p $m: demo-clean=$clean build=$build demo-mutated=$mut existing-tests=$existing (pkgs: $pkgs)"
 cd /repo; git worktree remove --force $wt
 if [ $clean = 0 ] && [ $build = 0 ] && [ $mut != 0 ] && [ $existing = 0 ]; then
-  d=/verif/seeded/$p-$m; mkdir -p $d; cp $src/patch.diff $src/demo_test.go $src/notes.md $d/
+  d=/verif/seeded/$p-$as; mkdir -p $d; cp $src/patch.diff $src/demo_test.go $src/notes.md $d/
   echo confirmed > $d/.confirmed
 fi
